@@ -32,12 +32,37 @@ def behaviours(ctx, cfg="SolverDump.cfg", simulate=None):
     return path
 
 
+def repo_tests(ctx, files=None):
+    """run (part of) the repository's own test suite under the run-time tracer; returns the trace file"""
+    import subprocess
+    from ..core import PY, VERIF, MachineryError
+    out = os.path.join(ctx.work, "repotests.ndjson")
+    e = dict(os.environ)
+    pp = [os.path.join(VERIF, "harness")]
+    if os.environ.get("VERIF_REPO_SRC"):
+        pp.insert(0, os.environ["VERIF_REPO_SRC"])
+    e["PYTHONPATH"] = ":".join(pp)
+    e["FELUPE_VERIF_TRACE"] = out
+    cwd = os.path.join(ctx.work, "repotests")
+    os.makedirs(cwd, exist_ok=True)
+    targets = ["/repo/tests/" + f for f in files] if files else ["/repo/tests"]
+    p = subprocess.run([PY, "-m", "pytest", "-q", "-p", "no:cacheprovider", "-p", "vh.pytest_tracer", "--rootdir", "/repo", "--timeout=900"] + targets,
+                       cwd=cwd, env=e, capture_output=True, text=True, timeout=3600)
+    ctx.extra["repo_tests_under_tracer"] = (p.stdout.strip().splitlines() or ["?"])[-1]
+    if not os.path.exists(out):
+        raise MachineryError("the traced repository tests produced no trace\n" + p.stdout[-2000:] + p.stderr[-2000:])
+    return out
+
+
 def run(ctx):
     model(ctx)
     beh = behaviours(ctx)
     shards = ctx.drive("d07", nshards=16, extra=["--opt", "behaviours=%s;maxiter=2" % beh])
     laws = [s for s in shards if "-laws." in s]
     traces = [s for s in shards if "-laws." not in s]
+    # the repository's own tests, traced: every event must be explainable by the specification as well
+    traces.append(repo_tests(ctx, None if ctx.tier == "thorough" else
+                             ["test_job.py", "test_tools.py", "test_mechanics.py", "test_constitution_newton.py", "test_planestrain.py", "test_readme.py"]))
     ctx.validate("SolverTrace", traces, count=False)
     ntr = 0
     for s in traces:
